@@ -172,12 +172,14 @@ def run_path(facts, meth, body, plan):
             elif 'Consistency' in ty:
                 upv[i] = ('opaque', 'level')
             elif meth == 'put_many' and nm in ('documents',) or (meth == 'put_many' and ty not in ('u64',) and 'Consistency' not in ty and not ty.startswith('&')):
-                upv[i] = ('vec', [('tuple', [Cell(('key', 'd1')), Cell(('opaque', 'bytes1'))]), ('tuple', [Cell(('key', 'd2')), Cell(('opaque', 'bytes2'))])])
+                upv[i] = ('vec', [('tuple', [Cell(('key', 'd1')), Cell(('opaque', 'bytes1'))]), ('tuple', [Cell(('key', 'd2')), Cell(('opaque', 'bytes2'))]),
+                                  ('tuple', [Cell(('key', 'd3')), Cell(('opaque', 'bytes3'))])])
             elif meth == 'del_many' and not ty.startswith('&'):
-                upv[i] = ('vec', [('key', 'd1'), ('key', 'd2')])
+                upv[i] = ('vec', [('key', 'd1'), ('key', 'd2'), ('key', 'd3')])
             else:
                 upv[i] = ('opaque', 'arg:' + ty)
         it = Interp(facts, Order({}), opaque_call=world.call, step_limit=400000)
+        it.scale_consts = 2      # (round 8, C06h: a bulk split into requests of a constant size; three documents stand for a batch above the limit)
         it.poll_hook = world.poll
         it.unknown_call = actor_abs.lenient_unknown
         it.opaque_fields = True
@@ -212,7 +214,7 @@ def check_api(ctx, facts, rule):
                 results[(meth, label)] = run_path(facts, meth, paths[meth], plan)
     except (Unmodelled, absint.NeedChoice, absint.PanicPath, IndexError, TypeError, KeyError, AttributeError, RecursionError) as e:
         return _fallback(ctx, rule, e)
-    WANT_IDS = {'put': ('d1',), 'del': ('d1',), 'put_many': ('d1', 'd2'), 'del_many': ('d1', 'd2')}
+    WANT_IDS = {'put': ('d1',), 'del': ('d1',), 'put_many': ('d1', 'd2', 'd3'), 'del_many': ('d1', 'd2', 'd3')}
     LOCAL = {'put': 'Set', 'put_many': 'MultiSet', 'del': 'Del', 'del_many': 'MultiDel'}
     QUEUED = {'put': 'Put', 'put_many': 'MultiPut', 'del': 'Del', 'del_many': 'MultiDel'}
     for meth in METHODS:
@@ -250,12 +252,24 @@ def check_api(ctx, facts, rule):
                     continue
                 if len(queued) != 1 or queued[0][2] != WANT_IDS[meth] or queued[0][3] != stamp or queued[0][1] != QUEUED[meth]:
                     bad.append('the distributor is handed %s — expected the same operation (ids %s, stamp %s) exactly once' % (queued, WANT_IDS[meth], stamp))
-                nodes_hit = sorted(e[1] for e in remote if e[1] is not None)
                 sel_nodes = NODES if plan['select'] == 'ok' else []
-                if nodes_hit != sorted(sel_nodes) or len(remote) != len(sel_nodes):
-                    bad.append('the selected replicas %s are sent %s request(s) to %s — expected exactly one each' % (sel_nodes, len(remote), nodes_hit))
-                elif any(e[3] != WANT_IDS[meth] or e[4] != stamp for e in remote):
-                    bad.append('a replica is sent ids %s / stamps %s, expected ids %s with the stamp of the local write %s' % (remote[0][3], remote[0][4], WANT_IDS[meth], stamp))
+                per_node = {}
+                for e in remote:
+                    per_node.setdefault(e[1], []).append(e)
+                if sorted(k for k in per_node if k is not None) != sorted(sel_nodes) or None in per_node:
+                    bad.append('the selected replicas %s are sent %s request(s) to %s — expected every selected replica and nobody else' % (sel_nodes, len(remote), sorted(str(k) for k in per_node)))
+                else:
+                    # a replica may be sent the operation in one request or split over several (a bulk cut into requests of bounded size): what
+                    # it is sent IN TOTAL is the operation — every id once, under the stamp of the local write; a replica that refused a request
+                    # need not be sent the rest
+                    for nd_, evs_ in sorted(per_node.items()):
+                        ids_ = tuple(k for e in evs_ for k in e[3])
+                        failed_ = plan['remote'].get(nd_, 'ok') != 'ok'
+                        whole_ = ids_ == WANT_IDS[meth] or (failed_ and ids_ == WANT_IDS[meth][:len(ids_)] and ids_)
+                        if not whole_ or any(e[4] != stamp for e in evs_):
+                            bad.append('replica %s is sent ids %s / stamps %s in %d request(s), expected ids %s with the stamp of the local write %s: the call counts it as '
+                                       'acknowledged although it was never sent part of the operation' % (nd_, ids_, sorted({x for e in evs_ for x in e[4]}), len(evs_), WANT_IDS[meth], stamp))
+                            break
                 want_ok = all(v == 'ok' for v in plan['remote'].values())
                 if is_ok != want_ok:
                     bad.append('with replica outcomes %s the call returns %s' % (plan['remote'], 'Ok' if is_ok else 'Err'))
